@@ -104,7 +104,8 @@ def Base.flush (sn : Sniff) (b : Base) : Base :=
 /-- finishRequest -/
 def Base.finish (sn : Sniff) (b : Base) : Base := b.flush sn
 
-/-- the response a client receives (Date, Content-Length, Transfer-Encoding are not observed) -/
+/-- the response a client receives (Date, Content-Length, Transfer-Encoding are not observed; a key
+    whose value list is empty produces no header line — the driver drops such keys when comparing) -/
 structure Resp where
   status : Nat
   hdrs : Hdrs
@@ -117,7 +118,7 @@ def Base.resp (b : Base) : Resp :=
   let h := match b.ctype with
     | some t => hset h kCT [t]
     | none => h
-  { status := b.status, hdrs := (hdel h kCL).filter (fun kv => !kv.2.isEmpty), body := b.body }
+  { status := b.status, hdrs := hdel h kCL, body := b.body }
 
 /-- the handler's alphabet: primitive calls on the ResponseWriter -/
 inductive Op
